@@ -436,3 +436,85 @@ def norm_facts(facts) -> set[tuple[str, bool]]:
             for c, q in conjuncts(e, p):
                 out.add(norm_fact(c, q))
     return out
+
+
+
+def quant_canon(t: ast.AST | str, pol: bool) -> tuple[str, bool] | None:
+    """Canonical form of a quantified fact over one generator: `all(E for v in S)`, `any(E for v in S)` under either
+    polarity, with `not` pushed inside and the bound variable renamed `_q`:
+        all(not P):T  ==  any(P):F   ->  ("all((not P for _q in S))", True)
+        any(P):T      ==  all(not P):F -> ("any((P for _q in S))", True)
+    None when the fact is not of that shape."""
+    if isinstance(t, str):
+        try:
+            t = ast.parse(t, mode="eval").body
+        except SyntaxError:
+            return None
+    while isinstance(t, ast.UnaryOp) and isinstance(t.op, ast.Not):
+        t, pol = t.operand, not pol
+    if not (isinstance(t, ast.Call) and isinstance(t.func, ast.Name) and t.func.id in ("all", "any") and len(t.args) == 1 and isinstance(t.args[0], (ast.GeneratorExp, ast.ListComp)) and len(t.args[0].generators) == 1 and not t.args[0].generators[0].ifs and isinstance(t.args[0].generators[0].target, ast.Name)):
+        return None
+    g = t.args[0].generators[0]
+    elt = t.args[0].elt
+    neg = False
+    while isinstance(elt, ast.UnaryOp) and isinstance(elt.op, ast.Not):
+        elt, neg = elt.operand, not neg
+    q = t.func.id
+    if not pol:  # not all(E) == any(not E) ; not any(E) == all(not E)
+        q = "any" if q == "all" else "all"
+        neg = not neg
+    import copy
+
+    class R(ast.NodeTransformer):
+        def visit_Name(self, node: ast.Name):
+            return ast.copy_location(ast.Name(id="_q" if node.id == g.target.id else node.id, ctx=node.ctx), node)
+
+    e2 = unparse(R().visit(copy.deepcopy(elt)))
+    return (f"{q}(({'not ' if neg else ''}{e2} for _q in {unparse(g.iter)}))", True)
+
+
+
+def loop_quant_facts(fn: ast.AST, node: ast.AST) -> set[tuple[str, bool]]:
+    """Quantified facts established by *search loops* before `node` (canonical form of quant_canon):
+        for v in S:            for v in S:
+            if P: return           if P: break
+        <node>                 else:
+                                   <node>
+    both establish all((not P for _q in S)) at <node>."""
+    pm = parent_map(fn)
+    out: set[tuple[str, bool]] = set()
+
+    def single_if(loop: ast.For):
+        body = [s for s in loop.body if not (isinstance(s, ast.Expr) and isinstance(s.value, ast.Constant))]
+        if len(body) == 1 and isinstance(body[0], ast.If) and not body[0].orelse and isinstance(loop.target, ast.Name):
+            return body[0]
+        return None
+
+    def fact_of(loop: ast.For, test: ast.expr):
+        gen = ast.GeneratorExp(elt=test, generators=[ast.comprehension(target=loop.target, iter=loop.iter, ifs=[], is_async=0)])
+        call = ast.Call(func=ast.Name(id="any", ctx=ast.Load()), args=[gen], keywords=[])
+        return quant_canon(ast.fix_missing_locations(call), False)
+
+    n = node
+    while id(n) in pm:
+        par = pm[id(n)]
+        # for-else
+        if isinstance(par, ast.For) and any(n is o for o in par.orelse):
+            i_ = single_if(par)
+            if i_ is not None and i_.body and isinstance(i_.body[-1], ast.Break):
+                qc = fact_of(par, i_.test)
+                if qc:
+                    out.add(qc)
+        for fld in ("body", "orelse", "finalbody"):
+            blk = getattr(par, fld, None)
+            if isinstance(blk, list) and any(n is b for b in blk):
+                idx_ = next(i for i, b in enumerate(blk) if b is n)
+                for prev in blk[:idx_]:
+                    if isinstance(prev, ast.For) and not prev.orelse:
+                        i_ = single_if(prev)
+                        if i_ is not None and i_.body and isinstance(i_.body[-1], (ast.Return, ast.Raise)):
+                            qc = fact_of(prev, i_.test)
+                            if qc:
+                                out.add(qc)
+        n = par
+    return out
